@@ -48,6 +48,32 @@ func runC10(c *Ctx) bool {
 			blk := gen.RandForest(r, r.Range(1, 8), 4, []int{gen.ClassPlain, gen.ClassExt, gen.ClassUnicode, gen.ClassBullet}, []int{0, 20}[r.Intn(2)])
 			f = append(f, blk[0])
 		}
+		if j%60 == 7 {
+			// large root blocks: each renders to more than one 4096-byte buffer
+			f = nil
+			for k := r.Range(3, 8); k > 0; k-- {
+				n := r.Range(150, 400)
+				depths := make([]int, n)
+				names := make([]string, n)
+				for i := range depths {
+					switch {
+					case i == 0:
+						depths[i] = 1
+					case i == 1:
+						depths[i] = 2
+					default:
+						depths[i] = 2 + (i*7+k)%4
+						if depths[i] > depths[i-1]+1 {
+							depths[i] = depths[i-1] + 1
+						}
+					}
+					names[i] = "n" + strconv.Itoa(k) + "-" + strconv.Itoa(i) + "-padding-padding"
+				}
+				names[0] = "big" + strconv.Itoa(k)
+				f = append(f, gen.FromDepths(depths, names)[0])
+			}
+			cs.AddTag("large-blocks")
+		}
 		c08Safe(f)
 		if r.Chance(1, 6) && len(f) > 1 {
 			// equal root names (allowed for outputs; filesystem ops use distinct roots)
@@ -114,17 +140,24 @@ func (w *walkLog) cb(wn *gtree.WalkerNode) error {
 }
 
 type c10Result struct {
-	out  []byte
-	rows []model.Row
-	snap mon.Snapshot
-	err  error
-	pan  any
-	stk  string
+	conc   int // max concurrent Write calls seen by the caller's writer
+	failed int // writes that failed (failing-writer executions)
+	out    []byte
+	rows   []model.Row
+	snap   mon.Snapshot
+	err    error
+	pan    any
+	stk    string
 }
 
 // c10Run executes one operation. profile: 0 none, 1 yielding writer/callback, 2 slow chunked
 // reader, 3 hook light, 4 hook heavy (hooks only matter in massive mode).
 func c10Run(c *Ctx, op string, doc []byte, massive bool, profile int, seed uint64, target string) (res c10Result, sched *mon.Sched) {
+	return c10RunW(c, op, doc, massive, profile, seed, target, -1)
+}
+
+// c10RunW is c10Run with a writer that fails from write index failAt on (failAt < 0: healthy).
+func c10RunW(c *Ctx, op string, doc []byte, massive bool, profile int, seed uint64, target string, failAt int) (res c10Result, sched *mon.Sched) {
 	var opts []gtree.Option
 	if massive {
 		if seed%5 == 0 {
@@ -151,10 +184,14 @@ func c10Run(c *Ctx, op string, doc []byte, massive bool, profile int, seed uint6
 	}
 	rd := &mon.FaultReader{Doc: doc, K: -1}
 	w := mon.NewRecWriter()
+	w.FailAt = failAt
 	wl := &walkLog{}
 	switch profile {
 	case 1:
 		w.Yield, wl.yield = true, true
+		if seed%2 == 0 && len(doc) < 4000 {
+			w.Delay = 20 * time.Microsecond // widens the window in which a second writer would overlap
+		}
 	case 2:
 		rd.Chunk, rd.Yield = 1+int(seed%17), true
 		if seed%3 == 0 {
@@ -188,6 +225,7 @@ func c10Run(c *Ctx, op string, doc []byte, massive bool, profile int, seed uint6
 		c10Quiet.Quiesce(base)
 	}
 	res.out, res.err, res.pan, res.stk = w.Bytes(), o.Err, o.Panic, o.Stack
+	_, res.failed, res.conc = w.Stats()
 	wl.mu.Lock()
 	res.rows = append([]model.Row(nil), wl.rows...)
 	wl.mu.Unlock()
@@ -306,11 +344,35 @@ func evalC10(c *Ctx, cs *Case) {
 			refBlocks = nil
 		}
 	}
+	// ---- a failing writer: massive fails iff simple fails (output operations)
+	if !fsOp && op != "walk" && ref.err == nil {
+		for _, k := range []int{0, 1, 3} {
+			sref, _ := c10RunW(c, op, doc, false, 0, 0, "", k)
+			cs.Entry = op + ",massive"
+			cs.N = []int{-1, k}
+			cs.Tags = append(append([]string(nil), baseTags...), "failing-writer")
+			c.Rejournal(cs)
+			mgot, _ := c10RunW(c, op, doc, true, 0, r.Uint64(), "", k)
+			c.Eval(gen.HashString(string(doc)+"\x00fw"+op+strconv.Itoa(k)), true)
+			c.Count("failing_writer_pairs", 1)
+			if mgot.pan != nil {
+				c.Violation(cs, "panic", PanicSig(mgot.pan, mgot.stk), map[string]any{"doc": trunc(string(doc), 600), "op": op, "fail_at_write": k})
+			} else if sref.failed > 0 && mgot.failed > 0 && (sref.err == nil) != (mgot.err == nil) {
+				c.Violation(cs, "error-iff.differs", op+"/failing-writer", map[string]any{"doc": trunc(string(doc), 600), "op": op, "fail_at_write": k, "simple_err": errStr(sref.err), "massive_err": errStr(mgot.err)})
+			}
+		}
+		cs.Tags = append([]string(nil), baseTags...)
+	}
 	// ---- massive executions
 	procs := []int{1, 2, 4, 16}
 	profiles := []int{0, 1, 2, 3, 4}
 	if c.Quick() {
 		procs = []int{procs[r.Intn(4)], procs[r.Intn(4)]}
+	}
+	if cs.HasTag("large-blocks") {
+		// big documents: fewer executions, the profiles that matter for torn blocks
+		procs = []int{[]int{2, 4, 16}[r.Intn(3)]}
+		profiles = []int{0, 1, 3}
 	}
 	oldProcs := runtime.GOMAXPROCS(0)
 	defer runtime.GOMAXPROCS(oldProcs)
@@ -359,6 +421,10 @@ func evalC10(c *Ctx, cs *Case) {
 					tr = tr[:60]
 				}
 				det["hook_trace"] = tr
+			}
+			if got.conc > 1 {
+				det["max_concurrent_writes"] = got.conc
+				c.Violation(cs, "writer.called-concurrently", op, det)
 			}
 			switch {
 			case got.pan != nil:
